@@ -55,7 +55,7 @@ def main():
         l = l.strip()
         l = l.replace("<checkout>", WT).replace("<repo>", WT)
         l = re.sub(r"^cd \S+\s*&&\s*", "", l)
-        l = re.sub(r"/tmp/seed[23]?-C\d+", WT, l)
+        l = re.sub(r"/tmp/seed[234]?-C\d+", WT, l)
         l = l.replace("<worktree>", WT).replace("<this dir>/../", seed + "/").replace("<this dir>", demo_dir)
         l = re.sub(r"^git apply (\S*/)?patch\.diff$", "git apply " + patch, l)
         # ENV=... cargo ...  ->  keep the assignments as a prefix the shell understands, mark as cargo
